@@ -589,6 +589,29 @@ def canon_nc(nc, root, table, problems):
     except Exception:  # the reported path does not even parse
         out["path"] = None
         problems.append("reported-path-does-not-parse")
+    if RENDER_BOTH and out["path"] is not None:
+        out["rendered"] = rendered_paths(nc.path)
+    return out
+
+
+RENDER_BOTH = False     # set by compare_chunk for C02: also render every reported path in dot and in forward-slash notation
+
+
+def rendered_paths(path):
+    """The reported path rendered in each notation by the library's own means: a copy of the path whose `separator`
+    is set to the notation, then str().  {"dot": text | None, "fslash": text | None} (None: rendering raised)."""
+    from yamlpath import YAMLPath
+    from yamlpath.enums import PathSeparators
+    out = {}
+    for name, sep in (("dot", PathSeparators.DOT), ("fslash", PathSeparators.FSLASH)):
+        try:
+            cp = YAMLPath(path)
+            cp.separator = sep
+            out[name] = str(cp)
+        except Timeout:
+            raise
+        except Exception:
+            out[name] = None
     return out
 
 
@@ -677,12 +700,15 @@ def err_class(e):
     return "ypath" if e.startswith("ypath") else e
 
 
-def seg_kinds(segs):
-    """Segment kinds of a path; a keyword search is named by its keyword (KW:parent, KW:has_child, …)."""
+def seg_kinds(segs, slices=False):
+    """Segment kinds of a path; a keyword search is named by its keyword (KW:parent, KW:has_child, …); with `slices`
+    (C02) an INDEX segment that is a slice `[a:b]` is named SLICE."""
     out = []
     for t, a in segs:
         if t == "KEYWORD_SEARCH" and isinstance(a, dict) and "keyword" in a:
             out.append("KW:" + a["keyword"]["kw"].lower())
+        elif slices and t == "INDEX" and isinstance(a, str):
+            out.append("SLICE")
         else:
             out.append(t)
     return ",".join(out)
@@ -699,6 +725,8 @@ def compare_chunk(args):
     opts: {"c02": bool, "slash": bool}"""
     cases, opts = args
     core.use_repo()
+    global RENDER_BOTH
+    RENDER_BOTH = bool(opts.get("c02"))
     stats = {"n": 0, "queries": 0, "nonempty": 0, "ypath": 0, "crash": 0, "oom": 0, "unparsable": 0, "slash_skipped": 0,
              "opt_compared": 0, "virtual": 0, "c09_mutations": 0, "deep_results": 0, "requeries": 0,
              "kinds": {}, "docsize": {}}
@@ -733,7 +761,7 @@ def compare_chunk(args):
     answers = core.Driver().ask(reqs) if reqs else []
     for (doc, items, text, segs, req, d, table), mo in zip(prepared, answers):
         case = {"doc": doc, "path": text, "items": items}
-        kinds = seg_kinds(segs)
+        kinds = seg_kinds(segs, bool(opts.get("c02")))
         for t, _a in segs:
             stats["kinds"][t] = stats["kinds"].get(t, 0) + 1
         sz = count_nodes(doc)
@@ -766,6 +794,12 @@ def compare_chunk(args):
                        dict(case, query=qn, impl=qo, prop="C15"))
             if qo.get("mutated"):
                 stats["c09_mutations"] += 1
+        # ---- C02, the clauses that need no model: keyword paths and the optional mode (judged whether or not the model
+        # covers the case)
+        kw_path = has_keyword(segs)
+        kw_name = "KW:name" in kinds.split(",")
+        if opts.get("c02") and req.get("err") is None and not kw_name:
+            c02_model_free(case, kinds, req, kw_path, stats, report, viol)
         if oom:
             stats["oom"] += 1
             continue
@@ -780,9 +814,7 @@ def compare_chunk(args):
             stats["ypath"] += 1
         # keyword results: [name()] yields a key, not a document node - its coordinates are not judged (C02); the results of
         # every other keyword (parent, has_child, min, max, unique, distinct) are document nodes and are judged directly
-        kw_path = has_keyword(segs)
-        kw_name = "KW:name" in kinds.split(",")
-        probs = [] if kw_name else (req.get("problems") or [])
+        probs = [] if kw_name or opts.get("c02") else (req.get("problems") or [])      # C02: reported by c02_model_free
         impl_addrs = None if impl_err else [addr_only(r) for r in req["res"]]
         spec_g = dict(m_spec)
         # get_nodes(mustexist=True) raises when nothing matched; a null document yields nothing
@@ -852,8 +884,8 @@ def compare_chunk(args):
         # ---- C02: coordinates, ancestry, path text, re-query
         if opts.get("c02") and impl_err is None and not bad and not kw_path:
             c02_compare(case, kinds, req, m_req, d, table, stats, report, viol)
-        elif opts.get("c02") and impl_err is None and kw_path and not kw_name:
-            c02_direct(case, kinds, req, stats, report, viol)
+        elif opts.get("c02") and impl_err is None and not kw_path:
+            c02_direct(case, kinds, req, stats, report, viol, "", (), "unmodelled")    # C01 differs: no model to compare with
         if len(samples) < 2 and impl_err is None and impl_addrs and len(segs) > 1:
             samples.append({"doc": doc, "path": text, "impl": impl_addrs, "spec": spec_addrs})
     stats["nontrivial"] = len(nontrivial)
@@ -909,56 +941,122 @@ def c02_compare(case, kinds, req, m_req, d, table, stats, report, viol):
             report(viol, "c02:accumulated-path-text-differs-from-model:%s" % kinds,
                    "%r: result %s accumulated the path text %r; the model's sections give %r" % (text, a, ir["orig"], mtxt),
                    dict(case, impl=ir, model=mr, prop="C02-model"))
+        judge_reported_path(case, kinds, ir, isegs, stats, report, viol, dict(model=mr))
+
+
+def reresolves(doc, ptxt, a, isegs):
+    """Does the path text, evaluated by the real Processor on a fresh copy of the document, return exactly the node at
+    address a (every bearer of the anchor when the path names one)?  -> (ok, query outcome, addresses)"""
+    rq, rd, _rt = run_query(doc, ptxt, "req")
+    got = None if rq.get("err") else [addr_only(x) for x in rq["res"]]
+    # a path that names an anchor returns the node once per place it is aliased
+    has_anchor = any(sg[0] == "ANCHOR" for sg in (isegs or []))
+    if has_anchor and got is not None and a in got:
+        node_obj = resolve(rd, a)
+        if isegs[-1][0] == "ANCHOR" or all(isinstance(x, list) and resolve(rd, x) is node_obj for x in got):
+            return True, rq, got
+    return got == [a], rq, got
+
+
+def judge_reported_path(case, kinds, ir, isegs, stats, report, viol, extra=None, mode=""):
+    """str(result.path) re-queried returns exactly the result; so does the path rendered in dot and in forward-slash
+    notation through the `separator` setter ("this holds in both notations")."""
+    text, a, ptxt = case["path"], ir["a"], ir["path"]
+    stats["requeries"] += 1
+    ok, rq, got = reresolves(case["doc"], ptxt, a, isegs)
+    if not ok:
+        report(viol, "c02:%spath-does-not-reresolve:%s" % (mode, kinds),
+               "%s%r: result %s reports path %r, which evaluates to %s" % (mode and mode[:-1] + " query ", text, a, ptxt, rq.get("err") or got),
+               dict(case, impl=ir, requery=rq, prop="C02", **(extra or {})))
+        return
+    for nota, rtxt in sorted((ir.get("rendered") or {}).items()):
+        if rtxt == ptxt:
+            continue
+        if rtxt is None:
+            report(viol, "c02:%spath-does-not-render-in-%s:%s" % (mode, nota, kinds),
+                   "%r: the path %r of result %s cannot be rendered in %s notation (separator setter + str() raised)" % (
+                       text, ptxt, a, nota), dict(case, impl=ir, notation=nota, prop="C02"))
+            continue
         stats["requeries"] += 1
-        rq, rd, rtable = run_query(case["doc"], ptxt, "req")
-        got = None if rq.get("err") else [addr_only(x) for x in rq["res"]]
-        # a path that names an anchor returns the node once per place it is aliased
-        has_anchor = any(sg[0] == "ANCHOR" for sg in (isegs or []))
-        if has_anchor and got is not None and a in got:
-            last_is_anchor = isegs[-1][0] == "ANCHOR"
-            node_obj = resolve(rd, a)
-            if last_is_anchor or all(isinstance(x, list) and resolve(rd, x) is node_obj for x in got):
-                continue
-        if got != [a]:
-            report(viol, "c02:path-does-not-reresolve:%s" % kinds,
-                   "%r: result %s reports path %r, which evaluates to %s" % (text, a, ptxt, rq.get("err") or got),
-                   dict(case, impl=ir, requery=rq, prop="C02"))
+        stats["rendered_requeries"] = stats.get("rendered_requeries", 0) + 1
+        rsegs = with_timer(lambda: parse_segments(rtxt))
+        ok, rq, got = reresolves(case["doc"], rtxt, a, rsegs)
+        if not ok:
+            report(viol, "c02:%spath-does-not-reresolve-in-%s:%s" % (mode, nota, kinds),
+                   "%r: result %s reports path %r; rendered in %s notation (separator setter) it is %r, which evaluates to %s" % (
+                       text, a, ptxt, nota, rtxt, rq.get("err") or got),
+                   dict(case, impl=ir, notation=nota, rendered=rtxt, requery=rq, prop="C02"))
 
 
-def c02_direct(case, kinds, req, stats, report, viol):
-    """Keyword paths (no [name()]): the property's clauses judged on the real code alone.  parent[parentref] is the node
-    (canon_nc -> problems, reported by the caller); the ancestry walks from the root to the node; str(path) re-queried on
-    the same document returns exactly that node."""
+def c02_model_free(case, kinds, req, kw_path, stats, report, viol):
+    """The C02 clauses judged on the real code alone, for a required query that succeeded (so every node the path names
+    exists): coordinate problems of every result; keyword paths in full (c02_direct); and the results of the same query in
+    the DEFAULT optional mode (get_nodes(mustexist=False), which runs other code: _get_optional_nodes) - coordinates,
+    ancestry chain, and re-resolution of every reported path the required query has not already shown to re-resolve."""
     text = case["path"]
-    stats["kw_judged"] = stats.get("kw_judged", 0) + 1
+    probs = req.get("problems") or []
+    if probs:
+        report(viol, "c02:%s:%s" % (probs[0], kinds), "result coordinates of %r: %s" % (text, probs),
+               dict(case, impl=req, prop="C02"))
+    if kw_path:
+        c02_direct(case, kinds, req, stats, report, viol)
+    opt, od, _ot = run_query(case["doc"], text, "opt")
+    stats["queries"] += 1
+    if opt.get("err") is not None:
+        return          # an optional query that raises on an existing path is C01's / C15's business
+    try:
+        after = codec.node_to_json(od)
+    except Exception:
+        after = None
+    if after != case["doc"] or len(opt["res"]) != len(req["res"]):
+        # a multi-match segment (`*`, `**`, a search, a pass-through key) reached a branch in which the rest of the path
+        # does not exist, and the optional mode built it (in the document, or in the temporary list of a slice result - then
+        # the document is unchanged but there are more results than matches): not all results are nodes of the document as
+        # given (C09's subject)
+        stats["opt_created"] = stats.get("opt_created", 0) + 1
+        return
+    stats["opt_judged"] = stats.get("opt_judged", 0) + 1
+    oprobs = opt.get("problems") or []
+    if oprobs:
+        report(viol, "c02:optional:%s:%s" % (oprobs[0], kinds), "result coordinates of optional query %r: %s" % (text, oprobs),
+               dict(case, query="opt", impl=opt, prop="C02"))
+    seen = set()
+    for ir in req["res"]:
+        if "v" not in ir and ir.get("a") is not None and ir.get("anc_walk") is None:
+            seen.add(json.dumps([ir["a"], ir.get("path"), ir.get("rendered")], sort_keys=True))
+    c02_direct(case, kinds, opt, stats, report, viol, "optional:", seen)
+
+
+def c02_direct(case, kinds, req, stats, report, viol, mode="", seen=(), tag="kw"):
+    """The property's clauses judged on the real code alone (keyword paths without [name()]; results of the optional
+    mode, mode="optional:").  parent[parentref] is the node (canon_nc -> problems, reported by the caller); the ancestry
+    walks from the root to the node; str(path) - and the path rendered in either notation - re-queried on the same
+    document returns exactly that node."""
+    text = case["path"]
+    if not mode:
+        stats[tag + "_judged"] = stats.get(tag + "_judged", 0) + 1
     for ir in req["res"]:
         if "v" in ir or ir.get("a") is None:
             continue
         a = ir["a"]
-        if len(a) >= 2:
-            stats["deep_results"] += 1
-        stats["kw_results"] = stats.get("kw_results", 0) + 1
+        if not mode:
+            if len(a) >= 2:
+                stats["deep_results"] += 1
+            stats[tag + "_results"] = stats.get(tag + "_results", 0) + 1
+        else:
+            stats["opt_results"] = stats.get("opt_results", 0) + 1
         if ir.get("anc_walk") is not None:
-            report(viol, "c02:ancestry-not-chain:%s" % kinds, "%r: ancestry of result %s: %s" % (text, a, ir["anc_walk"]),
-                   dict(case, impl=ir, prop="C02"))
+            report(viol, "c02:%sancestry-not-chain:%s" % (mode, kinds), "%s%r: ancestry of result %s: %s" % (
+                mode and mode[:-1] + " query ", text, a, ir["anc_walk"]), dict(case, impl=ir, prop="C02"))
             continue
         ptxt = ir.get("path")
         if ptxt is None:
-            report(viol, "c02:no-path:%s" % kinds, "%r: result %s has no path" % (text, a), dict(case, prop="C02"))
+            report(viol, "c02:%sno-path:%s" % (mode, kinds), "%r: result %s has no path" % (text, a), dict(case, prop="C02"))
             continue
+        if json.dumps([a, ptxt, ir.get("rendered")], sort_keys=True) in seen:
+            continue        # same node, same reported path as a result of the required query: judged there
         isegs = with_timer(lambda: parse_segments(ptxt))
-        stats["requeries"] += 1
-        rq, rd, _rt = run_query(case["doc"], ptxt, "req")
-        got = None if rq.get("err") else [addr_only(x) for x in rq["res"]]
-        has_anchor = any(sg[0] == "ANCHOR" for sg in (isegs or []))
-        if has_anchor and got is not None and a in got:
-            node_obj = resolve(rd, a)
-            if isegs[-1][0] == "ANCHOR" or all(isinstance(x, list) and resolve(rd, x) is node_obj for x in got):
-                continue
-        if got != [a]:
-            report(viol, "c02:path-does-not-reresolve:%s" % kinds,
-                   "%r: result %s reports path %r, which evaluates to %s" % (text, a, ptxt, rq.get("err") or got),
-                   dict(case, impl=ir, requery=rq, prop="C02"))
+        judge_reported_path(case, kinds, ir, isegs, stats, report, viol, None, mode)
 
 
 # --------------------------------------------------------------------------- collectors (C15, direct check only)
@@ -1035,17 +1133,32 @@ def collector_chunk(args):
 # --------------------------------------------------------------------------- keyword segments (C15, direct check only)
 
 
+KEYWORDS = ["has_child", "name", "max", "min", "parent", "unique", "distinct"]
+# keyword parameter texts at the edges of the parameter parser: blanks (dropped when bare, kept when quoted or escaped),
+# empty quotes, the anchor mark alone, lone / unbalanced quotes, separators without values
+KEYWORD_PARAM_TEXTS = ['" "', "' '", '"  "', "'   '", '""', "''", " ", "  ", "\\ ", "\\ \\ ", "&", '"&"', "& ", '" &"', '"& "', "&&",
+                       '" &x"', "'&x '", "&x", '"', "'", "\\\"", "\\'", '"\'', ",", ",,", "a,", ",a", " , ", '" "," "', '"",""', "'',a",
+                       '","', "', '", '"a"', "' a '", "a b", '"a b"', "0", '" 0"', "-1", '"-1 "', "a", "\\&x", "\\,", '" ", a']
+
+
+def keyword_param_items():
+    """`[kw(<text>)]` and `[!kw(<text>)]` for every keyword x every parameter text of KEYWORD_PARAM_TEXTS."""
+    return ["[%s%s(%s)]" % (inv, kw, t) for kw in KEYWORDS for inv in ("", "!") for t in KEYWORD_PARAM_TEXTS]
+
+
 def keyword_chunk(args):
-    """cases: (doc, items).  Direct C15 check of paths holding a keyword segment (outside the evaluator model)."""
+    """cases: (doc, items).  Direct C15 check of paths holding a keyword segment (outside the evaluator model).
+    opts["kw_opt"]: also through get_nodes(mustexist=False)."""
     cases, _opts = args
     core.use_repo()
     stats = {"n": 0, "ok": 0, "ypath": 0, "crash": 0}
     viol = []
     per_sig = {}
+    modes = ("req", "exists", "opt") if _opts.get("kw_opt") else ("req", "exists")
     for doc, items in cases:
         stats["n"] += 1
         text = path_text(items, False)
-        for mode in ("req", "exists"):
+        for mode in modes:
             out, _d, _t = run_query(doc, text, mode)
             e = out.get("err")
             if e is None:
